@@ -42,7 +42,8 @@ JOBS = {"quick": 4, "thorough": 16}
 LEVEL_TEXT = (
     "Programs of 2-4 tasks (half started with ctx.spawn, half with asyncio.create_task, at different depths, while the parent keeps entering/leaving blocks) are run under many "
     "interleavings: complete DFS over gate-release orders for 2-task programs with few gates (cap per program), seeded random schedules otherwise; every probe of every task is "
-    "compared with that task's lexical environment (snapshot at spawn + own blocks)."
+    "compared with that task's lexical environment (snapshot at spawn + own blocks). Functions run through the timeout helper and through the async cache (function / method, a key of their own) "
+    "are tasks started where the call is made and are judged the same way."
 )
 LEVEL_NOTE = "Trusted: the lexical reference (`expected`), gate scheduler (only schedules the production loop can exhibit), VirtualLoop."
 
